@@ -45,6 +45,10 @@ const (
 	c17FindMark = "marker-bypass"            // isSystemTask pass-through precedes both firewall layers
 	c17FindIdx  = "cache-index-no-analyzer"  // saveToCache creates the cache index without a text analyzer => invalidation finds nothing
 	c17FindTok  = "invalidate-token-overlap" // invalidation = OR of stemmed tokens, not membership of the id in the sources list
+	// engine defect owned by C07 (soft-deleted HNSW entry point: vectors added
+	// after the entry point was deleted are not linked to it and are never found);
+	// it surfaces here once the gateway has deleted a cache entry
+	c17FindEP = "hnsw-deleted-entry-point"
 )
 
 // c17ExclusionOn: set an entry to false once the defect has been repaired in
@@ -54,6 +58,7 @@ var c17ExclusionOn = map[string]bool{
 	c17FindMark: true,
 	c17FindIdx:  true,
 	c17FindTok:  true,
+	c17FindEP:   true,
 }
 
 func c17Excl(name string) bool { return c17ExclusionOn[name] && verifkit.Known(name) }
